@@ -39,6 +39,8 @@ inductive POp where
   | crashB (m : Nat)     -- block-rotation pass that dies after m steps (last op, one shard)
   | crashR (m : Nat)     -- first restart dies after m steps of RecoverWALData (last op, one shard)
   | crashE (m : Nat)     -- meta-WAL write that dies after m steps (last op, one shard)
+  | crashN (m : Nat)     -- first restart dies after m steps of RecoverMNameWALData (last op, one shard)
+  | crashF (m : Nat)     -- first restart dies after m system calls of the flushBlock inside RecoverWALData (last op, one shard)
 
 def parseOp (nsh : Nat) (ser : List Nat) (bsh : Nat) (t : String) : Option POp :=
   match t.toList with
@@ -63,7 +65,8 @@ def parseOp (nsh : Nat) (ser : List Nat) (bsh : Nat) (t : String) : Option POp :
     | 'x', [kind, m] => do
       let m ← nat? m
       if nsh ≠ 1 || m < 1 || m > 1000 then none
-      else if kind = "b" then some (.crashB m) else if kind = "r" then some (.crashR m) else if kind = "e" then some (.crashE m) else none
+      else if kind = "b" then some (.crashB m) else if kind = "r" then some (.crashR m) else if kind = "e" then some (.crashE m)
+      else if kind = "n" then some (.crashN m) else if kind = "f" then some (.crashF m) else none
     | _, _ => none
 
 def applyOp (cap : Nat) (s : Sys) : POp → Sys
@@ -77,10 +80,12 @@ def applyOp (cap : Nat) (s : Sys) : POp → Sys
       else ds.foldl (fun s d => sysStep cap s (.shard sh (.ingest 999 d roll))) s
   | .crashB m => { s with shards := modifyNth (blockRotateCrash m) 0 s.shards }
   | .crashR _ => s
+  | .crashN _ => s
+  | .crashF _ => s
   | .crashE m => metaFlushCrash m s
 
 def isCrash : POp → Bool
-  | .crashB _ | .crashR _ | .crashE _ => true
+  | .crashB _ | .crashR _ | .crashE _ | .crashN _ | .crashF _ => true
   | _ => false
 
 /-! ### printing -/
@@ -121,19 +126,28 @@ def lt2 (a b : Nat × Nat) : Bool := a.1 < b.1 || (a.1 == b.1 && a.2 < b.2)
 def lastWins (l : List MetaEntry) : List MetaEntry :=
   l.foldl (fun acc e => (acc.filter (fun x => !(x.shard == e.shard && x.seg == e.seg))) ++ [e]) []
 
-def render (s : Sys) (recCrash : Option Nat) : String :=
+inductive RestartCrash where
+  | none
+  | recover (m : Nat)   -- xr
+  | names (m : Nat)     -- xn
+  | flush (m : Nat)     -- xf
+
+def render (s : Sys) (recCrash : RestartCrash) : String :=
   let d := readDir (sysDir s)
   let dirS := ",".intercalate (d.map (fun f => s!"{str f.1}:{(fileDps f).length}"))
   let gs := sortBy (fun a b => lexLt a.info.key b.info.key) (groups (sysDir s))
   let ordS := ";".intercalate (gs.map (fun g => s!"{str g.info.key}:{",".intercalate (g.files.map (fun f => walIdxOf f.1))}"))
   let disk0 := match recCrash with
-    | none => sysDiskAfterRecovery s
-    | some m => diskAfterCrashedRecovery m (sysDir s) (sysDurable s)
+    | .recover m => diskAfterCrashedRecovery m (sysDir s) (sysDurable s)
+    | .flush m => diskAfterFlushCrashedRecovery m (sysDir s) (sysDurable s)
+    | _ => sysDiskAfterRecovery s
   let disk := sortBy (fun a b => lt3 (keyNum a.1) (keyNum b.1)) disk0
   let diskS := ";".intercalate (disk.map (fun (k, dps) =>
     let ser := ",".intercalate ((seriesDigests dps).map (fun (sid, n, h) => s!"{sid}={n}:{natHexW h.toNat 16}"))
     s!"{str k.1}/{k.2.1}/{k.2.2}:{ser}"))
-  let names := sortBy (fun a b => lt2 (a.1, a.2.1) (b.1, b.2.1)) (sysNamesAfterRecoveryOn disk0 s)
+  let names := sortBy (fun a b => lt2 (a.1, a.2.1) (b.1, b.2.1)) (match recCrash with
+    | .names m => sysNamesAfterCrashedRecovery m s
+    | _ => sysNamesAfterRecovery s)
   let namesS := ";".intercalate (names.map (fun (sh, seg, ns) =>
     s!"{sh}/{seg}:{",".intercalate ((sortBy (fun a b => decide (a < b)) ns).map toString)}"))
   let metas := sortBy (fun a b => lt2 (a.shard, a.seg) (b.shard, b.seg)) (lastWins (sysMetaAfterRecovery s))
@@ -159,9 +173,11 @@ def walrecover (args : List String) : String :=
           | some ops =>
             -- a crash op is only allowed as the last op
             if (ops.dropLast.any isCrash) then "bad-op" else
-            let rc := match ops.getLast? with
-              | some (.crashR m) => some m
-              | _ => none
+            let rc : RestartCrash := match ops.getLast? with
+              | some (.crashR m) => .recover m
+              | some (.crashN m) => .names m
+              | some (.crashF m) => .flush m
+              | _ => .none
             render (ops.foldl (applyOp cap) (Sys.init nsh)) rc
       | _, _, _ => "bad-op"
     | _, _, _, _, _ => "bad-op"
